@@ -31,11 +31,11 @@ fn write4<T: EncodingContext>(ctx: &mut T, s: &ArrayVec<u8, 4>) {
     }
 }
 
-fn handle_end<T: EncodingContext>(
-    ctx: &mut T,
-    mut symbols: ArrayVec<u8, 4>,
-) -> Result<(), DataEncodingError> {
-    // check case "encoding with <= 2 ASCII, no UNLATCH"
+/// Check for the case "encoding the rest with <= 2 ASCII codewords, no UNLATCH".
+///
+/// If it applies, the characters in `symbols` are handed back and the mode is
+/// switched to ASCII until the end.
+fn try_ascii_end<T: EncodingContext>(ctx: &mut T, symbols: &ArrayVec<u8, 4>) -> bool {
     let rest_chars = symbols.len() + ctx.characters_left();
     if rest_chars <= 4 {
         // The standard allows ASCII encoding without UNLATCH if there
@@ -52,11 +52,21 @@ fn handle_end<T: EncodingContext>(
                 Some(space) if space <= 2 && ascii_size <= space => {
                     ctx.backup(symbols.len());
                     ctx.set_ascii_until_end();
-                    return Ok(());
+                    return true;
                 }
                 _ => (),
             }
         }
+    }
+    false
+}
+
+fn handle_end<T: EncodingContext>(
+    ctx: &mut T,
+    mut symbols: ArrayVec<u8, 4>,
+) -> Result<(), DataEncodingError> {
+    if try_ascii_end(ctx, &symbols) {
+        return Ok(());
     }
     if symbols.is_empty() {
         if !ctx.has_more_characters() {
@@ -97,7 +107,16 @@ fn handle_end<T: EncodingContext>(
 
 pub(super) fn encode<T: EncodingContext>(ctx: &mut T) -> Result<(), DataEncodingError> {
     let mut symbols = ArrayVec::<u8, 4>::new();
-    while let Some(ch) = ctx.eat() {
+    loop {
+        // The planner counts on the end of data rule at every boundary of four characters,
+        // not only when the input is used up.
+        if symbols.is_empty() && ctx.has_more_characters() && try_ascii_end(ctx, &symbols) {
+            return Ok(());
+        }
+        let ch = match ctx.eat() {
+            Some(ch) => ch,
+            None => break,
+        };
         symbols.push(ch);
 
         if symbols.len() == 4 {
